@@ -13,12 +13,25 @@ Mistakes == {"block_size_without_number", "cert_offset_without_hash", "total_len
              "kdf_key_length_follows_pck", "kdf_256_one_iteration", "kdf_timestamp_big_endian", "kdf_block_number_from_zero",
              "kdf_rights_unshifted", "section_length_counts_header", "last_chunk_padded_to_16", "extra_padding_block",
              "fuses_length_in_bytes", "keyblob_halves_swapped", "configure_memory_swapped", "drop_last_command",
-             "root_key_hash_over_minimal_numbers"}
+             "root_key_hash_over_minimal_numbers",
+             "encrypts_when_key_material_supplied", "encrypts_when_pck_supplied", "isk_certificate_when_supplied"}
 \* root_key_hash_over_minimal_numbers: the builder hashes the numbers of a root key at their minimal length (leading zero bytes
 \* of X / Y dropped) when it fills the table of root key hashes, while the record carries - and the loader hashes - the key at
 \* the fixed width.  It changes something only for a root set of more than one key in which a key has a short coordinate:
 \* the used one -> its hash is not its table entry; any one -> the hash of the table is not the provisioned root-of-trust hash.
 Short(cls) == cls \in ShortClasses
+\* encrypts_when_key_material_supplied / encrypts_when_pck_supplied: the builder takes the decision "encrypt this chunk" from the
+\* PRESENCE of key material (c.given: part-common key + access rights + timestamp / the part-common key alone, rights read as 0)
+\* instead of from the request c.enc.  It changes something only for a container requested PLAIN with that material supplied as
+\* well: signature and hash chain are made over the cipher text and hold, but the loader of a plain container reads the 256 bytes
+\* of a block as they are and finds no section header in them (the cipher text of 16 known bytes: any value but uid = type = 1).
+\* isk_certificate_when_supplied: the builder puts an ISK certificate into the certificate block whenever the material for one is
+\* supplied, although no ISK is requested (root key record marked CA, container signed by the root key): the loader expects the
+\* certificate block to end with the root key record - size field and signature position disagree.
+EncryptsUnasked(c, m) == /\ ~c.enc
+                         /\ \/ m = "encrypts_when_key_material_supplied" /\ KeyMaterial(c.given)
+                            \/ m = "encrypts_when_pck_supplied" /\ c.given.pck # 0
+IskUnasked(c, m) == ~c.isk /\ m = "isk_certificate_when_supplied" /\ c.given.isk
 
 RECURSIVE CmdsLen(_, _)
 CmdsLen(cs, k) == IF k = 0 THEN 0 ELSE CmdsLen(cs, k - 1) + Size(cs[k].t, cs[k].dlen)
@@ -33,7 +46,8 @@ Events(c, m) ==
       keyAt    == rkrAt + 4 + tableLen
       rkrE     == keyAt + 2 * c.curve
       sigOff   == 12 + 2 * c.iskCurve + c.udLen
-      certE    == IF c.isk THEN rkrE + sigOff + 2 * c.curve ELSE rkrE
+      certE    == IF c.isk \/ IskUnasked(c, m) THEN rkrE + sigOff + 2 * c.curve ELSE rkrE      \* where the certificate block really ends
+      certSeen == IF c.isk THEN certE ELSE rkrE                     \* where a loader that follows the CA flag of the record gets to
       sLen     == IF c.isk THEN 2 * c.iskCurve ELSE 2 * c.curve
       total    == certE + sLen
       cmds     == IF m = "drop_last_command" /\ Len(c.cmds) > 0 THEN SubSeq(c.cmds, 1, Len(c.cmds) - 1) ELSE c.cmds
@@ -75,9 +89,9 @@ Events(c, m) ==
                               ok |-> m # "isk_signed_without_root_key_record",       \* the loader verifies over record || certificate
                               end |-> rkrE + sigOff + 2 * c.curve]>>
                       ELSE <<>>)
-                  \o <<[ev |-> "CertBlockEnd", end |-> certE, sizeField |-> IF m = "cert_size_field_without_header" THEN certE - certOff - 12 ELSE certE - certOff],
-                       [ev |-> "VerifyBlock0", frm |-> 0, to |-> certE, sigAt |-> certE, sigLen |-> sLen, digestLen |-> sLen \div 2,
-                        ok |-> m # "signature_not_over_hash_of_block1", end |-> certE + sLen]>>
+                  \o <<[ev |-> "CertBlockEnd", end |-> certSeen, sizeField |-> IF m = "cert_size_field_without_header" THEN certE - certOff - 12 ELSE certE - certOff],
+                       [ev |-> "VerifyBlock0", frm |-> 0, to |-> certSeen, sigAt |-> certSeen, sigLen |-> sLen, digestLen |-> sLen \div 2,
+                        ok |-> m # "signature_not_over_hash_of_block1" /\ ~IskUnasked(c, m), end |-> certSeen + sLen]>>
       kdk      == IF c.enc
                   THEN <<[ev |-> "DeriveKdk", pckBits |-> c.pckBits]
                          @@ kdf(IF m = "kdf_timestamp_big_endian" THEN Rev(<<0, 0>> \o c.ts) ELSE <<0, 0>> \o c.ts, 1)>>
@@ -92,7 +106,8 @@ Events(c, m) ==
                      kdf |-> IF c.enc THEN kdf(<<0, 0, 0, 0>> \o LenW(IF m = "kdf_block_number_from_zero" THEN i - 1 ELSE i), 16)
                              ELSE [const |-> <<0, 0, 0, 0, 0, 0>>, rightsByte |-> 0, modeByte |-> 0, keyBits |-> 0, opt |-> 0, iters |-> 0],
                      cipherAt |-> total + (i - 1) * bs + 4 + hl, cipherLen |-> CHUNK, ivZero |-> TRUE]]
-      section  == <<[ev |-> "Section", uid |-> 1, type |-> 1, len |-> IF m = "section_length_counts_header" THEN cl + 16 ELSE cl,
+      plainHdr == IF EncryptsUnasked(c, m) THEN 0 ELSE 1            \* what the loader of a plain container finds where uid / type should be
+      section  == <<[ev |-> "Section", uid |-> plainHdr, type |-> plainHdr, len |-> IF m = "section_length_counts_header" THEN cl + 16 ELSE cl,
                      rsvZero |-> TRUE, streamLen |-> CHUNK * n, padZero |-> TRUE]>>
       wire(j)  == LET x  == cmds[j]
                       w1 == CASE m = "keyblob_halves_swapped" /\ x.t = 10 -> <<x.a[2], x.x1[2]>>
